@@ -29,6 +29,48 @@ CHECKS = {
         "The out-of-range access itself cannot be observed after exit; clean exit 1 for every huge index (2^31 .. 2^128-1) is what shows no wild access happened first. Arrays of zero-sized elements are not generated.",
         "§4 C10",
     ),
+    "C04": (
+        "progmc c04",
+        "bounded-exhaustive enumeration of (result type, value, block placement) cases: the comptime copy (evaluated by the real comptime JIT) and the runtime copy of the same expression are both printed by an executable built by the real CLI and compared with the model value",
+        "33 result types (every int width incl. 128-bit at boundary values, f32/f64, bool, arrays incl. nested, structs incl. nested and float fields, enums with payloads and custom discriminants, optionals, error unions, arrays/structs of sum types; two values per top-level shape) x 8 placements (annotated global, local ::, local :=, inline argument, nested comptime, block with locals and a loop, block calling a helper, field of a struct literal) + 16 computing blocks (loops, helper calls, const-global reads, wrap-around at 8/32 bits, shifts, signed division, float->int, narrowing) each as local and as global + `type` results used as annotations + strings + 8 side-effect programs (marker printed exactly once by the compiler, never by the program, under 0/1/3 uses, in a loop, in a function called twice, second run).",
+        "Bodies are deterministic; pointer- and function-valued results are rejected by design and not generated; values beyond the listed ones are not covered.",
+        "§4 C04",
+    ),
+    "C05": (
+        "progmc c05",
+        "bounded-exhaustive enumeration of binding skeletons x global configurations, each compiled by the real CLI, against a reference resolver (exact set of undefined-reference lines, or printed values of every use)",
+        "Every item sequence of <= 3 items with at most one nested construct over {declare a, declare b, block, if, while, switch arm with argument a/b, local lambda with parameter a/b, global function with comptime parameter a/b, comptime block with tail a/b}, nested to depth 2, a use of `a` and of `b` at every program point, x 4 global configurations (global a / b present or absent): programs with no undefined use are executed and every use must print the value of the binding the reference resolver picks; for the others the set of `undefined reference` diagnostics must be exactly the predicted lines and nothing else may be reported.",
+        "Uses inside a lambda / comptime body of a name bound in the creating function are not generated (the statement does not decide them); identifier pool {a, b}; depth 2.",
+        "§4 C05",
+    ),
+    "C11": (
+        "progmc c11",
+        "bounded-exhaustive enumeration of (sum type, arm list) cases against the acceptance rule of the statement; every accepted switch executed on every variant x two payloads against a dispatch model",
+        "20 sum types (enums of 1..3 (thorough 4) variants with payload patterns none/u8/i64/struct and discriminants default or custom incl. 128, 200, 255; ?i32, ?struct, ?^i32, ?enum; Err!i32, Err!struct) x every arm list of length <= n+1 over {each variant fully qualified, each variant shorthand, `_`, a variant of a structurally identical foreign enum, an unknown shorthand, a non-type expression} (at most one non-own arm): accepted iff only own variants, none twice, and all covered or exactly one default arm which is last; accepted switches are executed for every variant with two payloads: exactly the arm of the variant runs, bound to the payload (default arm: the whole value). Plus switches over `distinct` wrappers of an enum, an optional and an error union.",
+        "Lists that cover everything and also end in a default arm are executed but not judged for acceptance; 6-variant enums are not reached.",
+        "§4 C11",
+    ),
+    "C13": (
+        "progmc c13",
+        "bounded-exhaustive enumeration of (context, expected type, provided nominal value) triples, each compiled by the real CLI, against the nominal acceptance rule; casts executed",
+        "13 expected types (D1, D2 :: distinct i32; D3 :: distinct D1; DU :: distinct u8; identical enums E1, E2 and their variants; identical structs S1, S2; i32, u8, i64) x 12 provided nominal values x 7 contexts (annotation, argument, return, struct field, optional payload, assignment, array element) + binary `+` / `==` between every pair of distinct values: accepted iff same nominal identity or variant -> own enum; untyped literals into every distinct integer type; explicit casts distinct <-> underlying executed and value-preserving.",
+        "underlying -> distinct, anonymous struct -> named struct and casts between two different distinct types are not judged (the statement does not decide them).",
+        "§4 C13",
+    ),
+    "C14": (
+        "progmc c14",
+        "bounded-exhaustive enumeration of (root, access chain, parenthesisation, operation) cases against a reference mutability judgement; accepted programs executed against a reference memory model with aliases",
+        "10 roots (`:=` local, `::` local, value parameter, global, ^mut / ^ pointers bound by `:=`, by `::` and as parameters) x every well-typed chain of <= 3 (thorough 4) steps from {.field, [i], explicit deref, auto-deref, #unwrap} over a struct holding a struct, an array of structs, ^mut and ^ pointers, an optional struct, and arrays of ^ / ^mut pointers, optionally parenthesised x {=, +=, take ^, take ^mut and write through it}: accepted iff the place is writable by the statement's rule; accepted programs are executed and the root, every copy, and both pointees are printed and compared with a reference memory model.",
+        "Paths that pass through immutable data and then through a ^mut pointer stored in it are not judged; pointers come only from ^e / ^mut e of a `:=` local.",
+        "§4 C14",
+    ),
+    "C15": (
+        "progmc c15",
+        "bounded-exhaustive enumeration of the (expression kind, const position) matrix, each compiled by the real CLI, against the README's const rule; accepted cells executed",
+        "17 integer expression kinds (literal, `::` local of literal / of `::` local / of comptime block, global, global of global, comptime global, global declared after use, imported global (of global), `:=` local, `::` of `:=`, `::` of call, call, struct member, runtime parameter, runtime arithmetic) x {array length, enum discriminant, comptime argument} and 15 type expression kinds x {annotation, comptime type argument, array element type}, comptime parameters in every position: accepted iff const by the rule, rejections must be 'not constant' diagnostics; accepted array lengths are observed (`len`, last element) for lengths 1, 2, 5, 17, 100.",
+        "Arithmetic on literals, parenthesised literals and a bare comptime block in the position are not judged; extern globals are not generated.",
+        "§4 C15",
+    ),
     "C22": (
         "capy-verif lex-mc",
         "bounded-exhaustive input enumeration against invariants (every string <= k over token-class alphabets, every <= 3-word sequence) on the real lexer",
